@@ -10,6 +10,7 @@ package main
 
 import (
 	"verifharness/c16/engine"
+	"verifharness/fraglib"
 	. "verifharness/hlib"
 )
 
@@ -51,6 +52,10 @@ func run(c *Ctx) error {
 	add("byzantine", byz, c.N(15, 100))
 	// an epoch elects another validator set; a block-carried link skips it (oracle only: the model has one set)
 	cases = append(cases, g.DynCases(id, c.N(9, 45))...)
-	return engine.RunProperty(c, engine.Oracles{C17: true}, cases,
-		"a case counts as non-trivial when the node admitted a verification message, signed a vote of its own or justified a checkpoint")
+	if err := engine.RunProperty(c, engine.Oracles{C17: true}, cases,
+		"a case counts as non-trivial when the node admitted a verification message, signed a vote of its own or justified a checkpoint"); err != nil {
+		return err
+	}
+	// translator cross-check: the generated SupLink.IsMajority (C17/Tie.v) against the compiled one
+	return fraglib.IsMajority(c)
 }
